@@ -59,6 +59,13 @@ arts = os.path.join(work, "artifacts")
 os.makedirs(corpus)
 os.makedirs(arts)
 seeds = os.path.join(ROOT, "fuzz", "seeds", args.target)
+# a `.pack` file holds one hex-encoded input per line: unpack into the fresh corpus directory
+for name in sorted(os.listdir(seeds)) if os.path.isdir(seeds) else []:
+    if name.endswith(".pack"):
+        for i, line in enumerate(open(os.path.join(seeds, name))):
+            line = line.strip()
+            if line:
+                open(os.path.join(corpus, "pack-%05d" % i), "wb").write(bytes.fromhex(line))
 cmd = [binary, "-fork=%d" % args.forks, "-max_total_time=%d" % args.seconds, "-seed=%d" % (args.seed % (2**31 - 1) or 1), "-max_len=512", "-len_control=0", "-timeout=60", "-rss_limit_mb=4096",
        "-ignore_crashes=1", "-artifact_prefix=" + arts + "/", "-dict=" + os.path.join(ROOT, "fuzz", "dict.txt"), corpus, seeds]
 t0 = time.time()
